@@ -37,14 +37,15 @@ type replRig struct {
 }
 
 // request issues one replication request on the receiver: Store.Sync (pre-check of the
-// heads, then a background Replicator.Load) or, when direct, Replicator.Load itself in a
-// goroutine (what Store.LoadMoreFrom does).
+// heads, then a background Replicator.Load) or, when direct, Store.LoadMoreFrom in a
+// goroutine (the entries go to Replicator.Load as they are; it returns when the request
+// is done).
 func (g *replRig) request(ctx context.Context, heads []ipfslog.Entry, direct bool) error {
 	if direct {
 		g.direct++
 		sim.TheHooks.DirectLoads++
 		cp := copyHeads(heads)
-		go g.store.Replicator().Load(ctx, cp)
+		go g.store.LoadMoreFrom(ctx, uint(len(cp)), cp)
 		return nil
 	}
 	return g.store.Sync(ctx, copyHeads(heads))
